@@ -30,12 +30,26 @@ def run(v, tier, seed, replay):
             td = e["hist"][0][2]
             cases.append(dict(edges=[e], mode=m, t04=(0 if td else [0, -10, 4000][hsh % 3]), move=0, order=hsh,
                               scale=(-40 if (nosrc and m[1] and not td and (hsh >> 5) % 3 == 0) else 0)))
+    # fixed stepping with far too few steps for the tolerance: either GSL refuses and Evolve reports it, or the result is right
+    ncoarse = 0
+    for i, e in enumerate(r.edges):
+        hsh = int(hashlib.md5(("coarse|%d|%d" % (seed, i)).encode()).hexdigest()[:6], 16)
+        sw = e["hist"][0][0]
+        if sw == 0 or e["hist"][0][2] or hsh % (12 if tier == "quick" else 3) != 0:
+            continue
+        fixed = [m for m in solver.MODES if not m[1]]
+        cases.append(dict(edges=[e], mode=fixed[(hsh >> 4) % len(fixed)], t04=0, move=0, order=hsh, coarse=[1, 2, 3, 5][(hsh >> 8) % 4]))
+        ncoarse += 1
     res, fails = solver.flow_replay(exe, cases)
     if fails:
         raise Infra("; ".join(fails[:2]))
     worst = 0.0
+    refused = 0
     for i, si, err, scale, terr in res:
         c = cases[i]; e = c["edges"][si]
+        if err is None:
+            refused += 1
+            continue
         rel = err / scale
         worst = max(worst, rel if rel == rel and rel != float("inf") else 0)
         if not (rel <= 1e-6):
@@ -46,6 +60,7 @@ def run(v, tier, seed, replay):
         if not (terr <= 1e-9):
             v.violation("clock/%s-%s" % (c["mode"][0], "adaptive" if c["mode"][1] else "fixed"), "cfg=%s hist=%s: Get_t off by %.3g" % (e["cfg"], e["hist"], terr), None)
     v.cov["flow_cases"] = len(cases)
+    v.cov["coarse_fixed_step_cases"] = {"run": ncoarse, "refused_by_gsl_error_control_and_reported": refused}
     v.cov["max_rel_err"] = worst
     # ---- protocol
     rng = random.Random(seed)
